@@ -46,6 +46,20 @@ def geOpt (n : Int) : Option Int → Bool
   | none => false
   | some l => decide (n ≥ l)
 
+/-- `n > limit`, `n <= limit`, `n < limit`, `n == limit` in a guarded position (None: junk false) -/
+def gtOpt (n : Int) : Option Int → Bool
+  | none => false
+  | some l => decide (n > l)
+def leOpt (n : Int) : Option Int → Bool
+  | none => false
+  | some l => decide (n ≤ l)
+def ltOpt (n : Int) : Option Int → Bool
+  | none => false
+  | some l => decide (n < l)
+def eqOpt (n : Int) : Option Int → Bool
+  | none => false
+  | some l => decide (n = l)
+
 /-- what `load_delimited` returns: header (None when `header=False`), rows, title, legend -/
 abbrev Loaded := Option Row × List Row × Str × Str
 
